@@ -17,6 +17,9 @@ structure LInstr where
 structure CompCfg where
   mapEnv : Bool := false
   cast : Option Nat := none      -- some 0 = int64, some 1 = float64
+  /-- patchJump / calcBackwardJump panic on `offset > math.MaxUint16` (absent in the unfixed code, where the
+      offset is silently truncated; set by the driver from the generated fact `Gen.jumpGuard`) -/
+  jumpGuard : Bool := false
   deriving Repr, Inhabited
 
 /-- the constant pool with `makeConstant`'s index; `reOwner` records which MatchesNode (by location)
@@ -45,6 +48,7 @@ def hashable : Val → Bool
 
 inductive CompErr where
   | tooManyConstants | unknownOperator (op : String) | unknownBuiltin (name : String) | malformed
+  | jumpTooFar
   deriving Repr, DecidableEq
 
 abbrev CR := Except CompErr
@@ -114,9 +118,12 @@ def compileNode (cfg : CompCfg) : Node → Pool → CR (List LInstr × Pool)
   | .str m s, p => do
     let (k, p) ← mkConst (.str s) p
     pure ([li m.loc .push k], p)
-  | .const m v, p => do
-    let (k, p) ← mkConst v p
-    pure ([li m.loc .push k], p)
+  | .const m v, p =>
+    match v with
+    | .nil => .ok ([li m.loc .nil_], p)       -- `ConstantNode{nil}` (a ConstExpr function returned nil): OpNil
+    | v => do
+      let (k, p) ← mkConst v p
+      pure ([li m.loc .push k], p)
   | .unary m op x, p => do
     let (cx, p) ← compileNode cfg x p
     if op == "!" || op == "not" then pure (cx ++ [li m.loc .not_], p)
@@ -302,13 +309,21 @@ structure Compiled where
   consts : Array Val
   deriving Inhabited
 
-/-- `compiler.Compile(tree, config)` -/
+def Op.isJump (o : Op) : Bool := o.argClass == .jumpFwd || o.argClass == .jumpBack
+
+/-- some jump of the code carries an offset that does not fit 16 bits -/
+def jumpOverflow (code : List LInstr) : Bool := code.any fun i => i.instr.op.isJump && decide (65535 < i.instr.arg)
+
+/-- `compiler.Compile(tree, config)`; with the guard, an oversized jump offset panics inside
+    patchJump / calcBackwardJump and `Compile` recovers the panic into an error -/
 def compileProgram (cfg : CompCfg) (n : Node) : CR Compiled := do
   let (code, p) ← compileNode cfg n {}
-  let castI := match cfg.cast with
-    | some t => [li {} .cast t]
-    | none => []
-  pure { code := code ++ castI, consts := p.consts }
+  if cfg.jumpGuard && jumpOverflow code then .error .jumpTooFar
+  else
+    let castI := match cfg.cast with
+      | some t => [li {} .cast t]
+      | none => []
+    pure { code := code ++ castI, consts := p.consts }
 
 def Compiled.bytes (c : Compiled) : List Nat := encodeAll (c.code.map (·.instr))
 
